@@ -187,6 +187,7 @@ type History struct {
 	Results []Res    `json:"results"`
 	Final   Dump     `json:"final"`
 	Oracle  []string `json:"oracle"` // failures of the model-independent oracles
+	Stats   map[string]int `json:"stats"` // how often each oracle clause had something to check
 }
 
 // ---------------------------------------------------------------- universe
@@ -494,8 +495,15 @@ func (im *impl) apply(c *Cmd) Res {
 	case error:
 		return Res{Kind: "err", Err: errClass(v.Error()), Msg: v.Error()}
 	case structs.TxnResponse:
+		return projectTxn(v.Results, v.Errors)
+	}
+	return Res{Kind: "err", Err: fmt.Sprintf("EOther:unexpected result type %T", out)}
+}
+
+func projectTxn(results structs.TxnResults, errors structs.TxnErrors) Res {
+	{
 		r := Res{Kind: "txn", Results: []TRes{}, Errors: [][2]any{}}
-		for _, tr := range v.Results {
+		for _, tr := range results {
 			switch {
 			case tr.KV != nil:
 				row := kvRow(tr.KV)
@@ -511,12 +519,11 @@ func (im *impl) apply(c *Cmd) Res {
 				r.Results = append(r.Results, TRes{Kind: "check", Check: &row})
 			}
 		}
-		for _, e := range v.Errors {
+		for _, e := range errors {
 			r.Errors = append(r.Errors, [2]any{e.OpIndex, errClass(e.What)})
 		}
 		return r
 	}
-	return Res{Kind: "err", Err: fmt.Sprintf("EOther:unexpected result type %T", out)}
 }
 
 // ---------------------------------------------------------------- generator
@@ -884,6 +891,180 @@ func (g *gen) next() Cmd {
 
 func (im *impl) dumpNodes() []NodeRow { return im.dump().Nodes }
 
+// rawDump renders every row of every memdb table with all its fields, exported or not (pointers
+// followed, map keys sorted, funcs and channels left out): the unprojected store, for the "changes nothing at all"
+// oracles.  One line per row, sorted.
+func deepString(b *strings.Builder, v reflect.Value, depth int) {
+	if depth > 12 {
+		b.WriteString("...")
+		return
+	}
+	switch v.Kind() {
+	case reflect.Invalid:
+		b.WriteString("nil")
+	case reflect.Ptr, reflect.Interface:
+		if v.IsNil() {
+			b.WriteString("nil")
+			return
+		}
+		deepString(b, v.Elem(), depth+1)
+	case reflect.Struct:
+		b.WriteString(v.Type().Name() + "{")
+		for i := 0; i < v.NumField(); i++ {
+			b.WriteString(v.Type().Field(i).Name + ":")
+			deepString(b, v.Field(i), depth+1)
+			b.WriteString(" ")
+		}
+		b.WriteString("}")
+	case reflect.Slice, reflect.Array:
+		if v.Kind() == reflect.Slice && v.IsNil() {
+			b.WriteString("nil[]")
+			return
+		}
+		b.WriteString("[")
+		for i := 0; i < v.Len(); i++ {
+			deepString(b, v.Index(i), depth+1)
+			b.WriteString(" ")
+		}
+		b.WriteString("]")
+	case reflect.Map:
+		if v.IsNil() {
+			b.WriteString("nilmap")
+			return
+		}
+		var ks []string
+		m := map[string]reflect.Value{}
+		for _, k := range v.MapKeys() {
+			var kb strings.Builder
+			deepString(&kb, k, depth+1)
+			ks = append(ks, kb.String())
+			m[kb.String()] = v.MapIndex(k)
+		}
+		sort.Strings(ks)
+		b.WriteString("map[")
+		for _, k := range ks {
+			b.WriteString(k + ":")
+			deepString(b, m[k], depth+1)
+			b.WriteString(" ")
+		}
+		b.WriteString("]")
+	case reflect.Func, reflect.Chan, reflect.UnsafePointer:
+		b.WriteString("-")
+	case reflect.String:
+		fmt.Fprintf(b, "%q", v.String())
+	case reflect.Bool:
+		fmt.Fprint(b, v.Bool())
+	case reflect.Int, reflect.Int8, reflect.Int16, reflect.Int32, reflect.Int64:
+		fmt.Fprint(b, v.Int())
+	case reflect.Uint, reflect.Uint8, reflect.Uint16, reflect.Uint32, reflect.Uint64, reflect.Uintptr:
+		fmt.Fprint(b, v.Uint())
+	case reflect.Float32, reflect.Float64:
+		fmt.Fprint(b, v.Float())
+	default:
+		fmt.Fprintf(b, "?%s", v.Kind())
+	}
+}
+
+func (im *impl) rawDump() []string {
+	var out []string
+	im.store().WalkAllTables(func(table string, item interface{}) bool {
+		var b strings.Builder
+		deepString(&b, reflect.ValueOf(item), 0)
+		out = append(out, table+"|"+b.String())
+		return true
+	})
+	sort.Strings(out)
+	return out
+}
+
+func rawDiff(a, b []string) string {
+	am := map[string]int{}
+	for _, x := range a {
+		am[x]++
+	}
+	for _, x := range b {
+		am[x]--
+	}
+	for x, n := range am {
+		if n != 0 {
+			if len(x) > 160 {
+				x = x[:160]
+			}
+			return x
+		}
+	}
+	return ""
+}
+
+// C03, read path: KVSGet of every pool key and KVSList of every pool prefix (through the store's
+// own read functions, not the table walk) return exactly the rows of the table walk.
+func (im *impl) oracleReads(d *Dump) []string {
+	var out []string
+	st := im.store()
+	rows := map[string]KVRow{}
+	for _, kv := range d.KVs {
+		rows[kv.K] = kv
+	}
+	for _, k := range keys {
+		_, e, err := st.KVSGet(nil, k, nil)
+		want, ok := rows[k]
+		switch {
+		case err != nil:
+			out = append(out, "C03:get-error:key="+k)
+		case e == nil && ok:
+			out = append(out, "C03:get-misses-present-key:key="+k)
+		case e != nil && !ok:
+			out = append(out, "C03:get-returns-absent-key:key="+k)
+		case e != nil && kvRow(e) != want:
+			out = append(out, "C03:get-differs-from-table:key="+k)
+		}
+	}
+	for _, p := range append([]string{"a/b", "é", "\xc3"}, prefixes...) {
+		_, ents, err := st.KVSList(nil, p, nil)
+		if err != nil {
+			out = append(out, "C03:list-error:prefix="+p)
+			continue
+		}
+		var want []KVRow
+		for _, kv := range d.KVs { // d.KVs is sorted by key
+			if strings.HasPrefix(kv.K, p) {
+				want = append(want, kv)
+			}
+		}
+		if len(ents) != len(want) {
+			out = append(out, fmt.Sprintf("C03:list-wrong-length:prefix=%q got %d want %d", p, len(ents), len(want)))
+			continue
+		}
+		for i, e := range ents {
+			if kvRow(e) != want[i] {
+				out = append(out, fmt.Sprintf("C03:list-differs-from-table:prefix=%q at %d", p, i))
+				break
+			}
+		}
+	}
+	return out
+}
+
+func allReads(ops []TxnOp) bool {
+	for _, o := range ops {
+		switch o.Kind {
+		case "kv":
+			switch o.Verb {
+			case "get", "get-or-empty", "get-tree", "check-session", "check-index", "check-not-exists":
+			default:
+				return false
+			}
+		case "node", "service", "check":
+			if o.Verb != "get" {
+				return false
+			}
+		default:
+			return false
+		}
+	}
+	return len(ops) > 0
+}
+
 // ---------------------------------------------------------------- oracles (model-independent)
 
 // C04: every lock holder, check link and query session is a live session.
@@ -948,8 +1129,11 @@ func oracleSessionValid(d *Dump) []string {
 	return out
 }
 
-// C04 end-of-session clause on consecutive dumps.
-func oracleSessionEnd(before, after *Dump, idx uint64) []string {
+// C04 end-of-session clause on consecutive dumps.  For a single command (not a transaction, whose
+// later operations may write a released key again) the clause is checked exactly: a held key is
+// deleted with a tombstone at the command's index, or released with value, flags, lock counter and
+// create index kept and the modify index set to the command's index, according to the behaviour.
+func oracleSessionEnd(before, after *Dump, idx uint64, isTxn bool) []string {
 	var out []string
 	liveAfter := map[string]bool{}
 	for _, s := range after.Sessions {
@@ -958,6 +1142,10 @@ func oracleSessionEnd(before, after *Dump, idx uint64) []string {
 	afterKV := map[string]KVRow{}
 	for _, kv := range after.KVs {
 		afterKV[kv.K] = kv
+	}
+	afterTomb := map[string]string{}
+	for _, t := range after.Tombs {
+		afterTomb[t[0]] = t[1]
 	}
 	for _, s := range before.Sessions {
 		if liveAfter[s.ID] {
@@ -972,8 +1160,20 @@ func oracleSessionEnd(before, after *Dump, idx uint64) []string {
 				if ok && a.C == kv.C {
 					out = append(out, "C04:held-key-not-deleted:key="+kv.K)
 				}
-			} else if ok && a.C == kv.C && a.S == s.ID {
-				out = append(out, "C04:held-key-not-released:key="+kv.K)
+				if !isTxn && (ok || afterTomb[kv.K] != fmt.Sprint(idx)) {
+					out = append(out, "C04:deleted-key-without-tombstone-at-index:key="+kv.K)
+				}
+			} else {
+				if ok && a.C == kv.C && a.S == s.ID {
+					out = append(out, "C04:held-key-not-released:key="+kv.K)
+				}
+				if !isTxn {
+					want := kv
+					want.S, want.M = "", idx
+					if !ok || a != want {
+						out = append(out, "C04:released-key-altered:key="+kv.K)
+					}
+				}
 			}
 		}
 	}
@@ -1149,7 +1349,7 @@ func dumpsEqual(a, b *Dump) bool {
 func runHistory(id int, seed int64, mix string, n int, script []Cmd) History {
 	im := newImpl()
 	g := &gen{rng: rand.New(rand.NewSource(seed)), im: im, mix: mix}
-	h := History{ID: id, Mix: mix, Cmds: []Cmd{}, Results: []Res{}, Oracle: []string{}}
+	h := History{ID: id, Mix: mix, Cmds: []Cmd{}, Results: []Res{}, Oracle: []string{}, Stats: map[string]int{}}
 	ref := refMap{}
 	before := im.dump()
 	for i := 0; i < n; i++ {
@@ -1161,8 +1361,52 @@ func runHistory(id int, seed int64, mix string, n int, script []Cmd) History {
 		}
 		ws := watchAll(im.store())
 		ev0 := im.pub.events
+		raw0 := im.rawDump()
+		// C05: a read-only transaction through the read endpoint's store function changes nothing
+		// and answers what the write path answers for the same operations
+		var roRes *Res
+		if c.Kind == "txn" && allReads(c.Ops) {
+			ops := structs.TxnOps{}
+			for i := range c.Ops {
+				ops = append(ops, txnOp(&c.Ops[i]))
+			}
+			r, e := im.store().TxnRO(ops)
+			pr := projectTxn(r, e)
+			roRes = &pr
+			h.Stats["read_only_txns_through_TxnRO"]++
+			if d := rawDiff(raw0, im.rawDump()); d != "" {
+				h.Oracle = append(h.Oracle, fmt.Sprintf("step %d: C05:read-only-txn-changed-store: %s", i, d))
+			}
+		}
 		res := im.apply(&c)
 		after := im.dump()
+		raw1 := im.rawDump()
+		if roRes != nil {
+			a, _ := json.Marshal(roRes)
+			b, _ := json.Marshal(res)
+			if string(a) != string(b) {
+				h.Oracle = append(h.Oracle, fmt.Sprintf("step %d: C05:read-only-txn-answers-differ", i))
+			}
+			if d := rawDiff(raw0, raw1); d != "" {
+				h.Oracle = append(h.Oracle, fmt.Sprintf("step %d: C05:read-only-txn-changed-store: %s", i, d))
+			}
+		}
+		// C05: a command that reports an error (a transaction with a failed operation included)
+		// leaves every row of every table as it was
+		if res.Kind == "err" || (c.Kind == "txn" && len(res.Errors) > 0) {
+			h.Stats["failed_commands_raw_store_compared"]++
+			if d := rawDiff(raw0, raw1); d != "" {
+				h.Oracle = append(h.Oracle, fmt.Sprintf("step %d: C05:failed-command-changed-store: %s", i, d))
+			}
+		}
+		// C03: the store's read functions agree with the tables
+		h.Stats["read_path_checks(get+list)"] += len(keys) + len(prefixes) + 3
+		if len(after.Sessions) < len(before.Sessions) {
+			h.Stats["steps_ending_sessions"]++
+		}
+		for _, o := range im.oracleReads(&after) {
+			h.Oracle = append(h.Oracle, fmt.Sprintf("step %d: %s", i, o))
+		}
 		h.Cmds = append(h.Cmds, c)
 		res.Msg = ""
 		h.Results = append(h.Results, res)
@@ -1174,7 +1418,7 @@ func runHistory(id int, seed int64, mix string, n int, script []Cmd) History {
 		for _, o := range oracleSessionValid(&after) {
 			h.Oracle = append(h.Oracle, fmt.Sprintf("step %d: %s", i, o))
 		}
-		for _, o := range oracleSessionEnd(&before, &after, c.Idx) {
+		for _, o := range oracleSessionEnd(&before, &after, c.Idx, c.Kind == "txn") {
 			h.Oracle = append(h.Oracle, fmt.Sprintf("step %d: %s", i, o))
 		}
 		// ---- C05
@@ -1190,7 +1434,7 @@ func runHistory(id int, seed int64, mix string, n int, script []Cmd) History {
 			if fired(ws) {
 				h.Oracle = append(h.Oracle, fmt.Sprintf("step %d: C05:failed-txn-woke-watcher", i))
 			}
-			if len(after.Delay) != len(before.Delay) {
+			if strings.Join(after.Delay, ",") != strings.Join(before.Delay, ",") {
 				h.Oracle = append(h.Oracle, fmt.Sprintf("step %d: C05:failed-txn-set-lock-delay", i))
 			}
 			if len(res.Results) != 0 {
